@@ -49,7 +49,17 @@ def tasks(tier):
     ts.append(("trial vs committed", "run_trial", {}))
     ts.append(("softening", "run_softening", {}))
     ts.append(("plasticity", "run_plasticity", {}))
+    # the usual way to give a history-dependent material a volumetric part is `material & Volumetric(...)`: what the body stores as trial
+    # state (and commits after convergence) is what the composite hands out
+    ts.append(("composite state", "run_included", dict(modname="c03", fname="run_composite", kwargs={}, oid="C15.O8", select_oid="C03.O8",
+                                                      why="state variables change ... exactly to the values of the converged iterate: a composite must pass on the new state its history-dependent (first) material computed")))
     return ts
+
+
+def run_included(col, modname, fname, kwargs, oid, why, select_oid=None):
+    from ..common import include
+
+    include(col, modname, fname, kwargs, oid, why, select_oid=select_oid)
 
 
 def run_flow(col):
